@@ -21,7 +21,7 @@ RULE = ("S: operation histories over a pool of genuine and hostile certificates 
         "the independent checker evaluated at least one stored certificate / a verdict was compared.")
 ASSUMPTIONS = ["asn1tools' OER codec and the ASN.1 module are trusted to produce the to-be-signed images; python-ecdsa is trusted",
                "only roots passed to add_root_certificate by the harness ('the operator') count as configured"]
-REQUIRED_COUNTERS = ["S.ops", "S.store_certs_rechecked", "S.hostile_offers", "S.genuine_admitted", "S.messages_carrying_a_certificate", "V.messages", "V.accepted", "V.must_reject_checked", "I.issued", "I.must_not_verify_checked", "I.must_not_verify_checked[multi-group-issuer]"]
+REQUIRED_COUNTERS = ["S.ops", "S.store_certs_rechecked", "S.hostile_offers", "S.genuine_admitted", "S.messages_carrying_a_certificate", "V.messages", "V.accepted", "V.must_reject_checked", "V.directed_stale_window_sequences", "I.issued", "I.must_not_verify_checked", "I.must_not_verify_checked[multi-group-issuer]"]
 
 
 def craft_signed(own, backend, psid, payload, gen_time_us, signer="certificate", extra=None, tamper=None):
@@ -223,6 +223,29 @@ def run_v(spec, res):
             gt = {"within": (lo + hi) // 2, "before": lo - rng.choice((1, 10 ** 6, 10 ** 9)), "after": hi + rng.choice((1, 10 ** 6, 10 ** 9)),
                   "edge_lo": lo, "edge_hi": hi, "way_after": hi + 10 ** 13}[tclass]
             psid = rng.choice((36, 37, 638, 99, 140, 36, 37))
+            # directed opening of every stream: a valid message of the ticket with the widest window, then a message of
+            # another ticket for an ITS-AID it does not hold (rejected), then a message of that ticket with a permitted
+            # ITS-AID whose generation time is outside ITS window but inside the first ticket's
+            if k % 12 in (0, 1, 2):
+                wide = max(block, key=lambda b: pki.validity_window_us(b[0].certificate)[1] - pki.validity_window_us(b[0].certificate)[0])
+                narrow = min(block, key=lambda b: pki.validity_window_us(b[0].certificate)[1] - pki.validity_window_us(b[0].certificate)[0])
+                wlo, whi = pki.validity_window_us(wide[0].certificate)
+                nlo, nhi = pki.validity_window_us(narrow[0].certificate)
+                if wide is not narrow and (nhi + 10 ** 6 < whi or nlo - 10 ** 6 > wlo):
+                    res.count("V.directed_stale_window_sequences")
+                    if k % 12 == 0:
+                        at, at_psids, unit, n, start_off = wide
+                        lo, hi = wlo, whi
+                        psid, tclass, gt = wide[1][0], "within", (max(wlo, nlo) + min(whi, nhi)) // 2 if max(wlo, nlo) < min(whi, nhi) else (wlo + whi) // 2
+                    else:
+                        at, at_psids, unit, n, start_off = narrow
+                        lo, hi = nlo, nhi
+                        if k % 12 == 1:
+                            psid = next(p_ for p_ in (36, 37, 638, 99, 140) if p_ not in narrow[1])
+                            tclass, gt = "within", (nlo + nhi) // 2
+                        else:
+                            psid = narrow[1][0]
+                            tclass, gt = ("after", nhi + 10 ** 6) if nhi + 10 ** 6 < whi else ("before", nlo - 10 ** 6)
             form = rng.choice(("certificate", "digest")) if psid != 37 else "certificate"
             extra = {"generationLocation": {"latitude": 1, "longitude": 2, "elevation": 0xF000}} if psid == 37 else None
             msg = craft_signed(at, G.backend, psid, b"payload-%d" % k, gt, form, extra)
